@@ -28,7 +28,9 @@ TRUSTED = []
 ASSUMPTIONS = ['transport abstracted: connect/close/send/recv are havoc-ed callbacks; a blocking recv returns within the socket/serial timeout (external)',
                'time.sleep (backoff, RTU inter-frame wait) returns (external)',
                'RTU sendPacket waiting loop: leaves through the timeout branch at the latest (time.time advances; external clock)',
-               'retry lemmas are bounded in the retry count (1..2); recovery scripts are a bounded executable stand-in']
+               'retry lemmas are bounded in the retry count (1..2); recovery scripts are a bounded executable stand-in',
+               'the call-site abstractions TransactCounted and FramerQuiet are hand-written; what they assume is what C13/transact.<kind>, C13/framer.<kind>, C13/decoder (and C08/filter, C08/transact) prove on the real code, minus the escaping exception classes recorded as findings C13-F3..F6 - correspondence by inspection',
+               'computeCRC / computeLRC contracts are verified in the C03 and C07 checks']
 PROP = 'C13'
 CS = (K.ComputeCRC(), K.ComputeLRC())
 TMQ = CL.TMQ
